@@ -97,9 +97,11 @@ theorem gen_clip_fns {F : Type} (o : ClipOps F) (xl xu xbase sl su x shift scale
 
 /-- the tuple `remove_scaling` receives is `(shift, scale, xl, xu)` with `xl`, `xu` copies of the USER's bounds taken before
     they are scaled (so that the final clip of `remove_scaling` is onto the user's box, the hypothesis of
-    `C01_removeScaling_in_bounds`), `shift = xl`, `scale = xu - xl` — the statements of `solve()` as text -/
+    `C01_removeScaling_in_bounds`), `shift = xl`, `scale = xu - xl` — the statements of `solve()` as text; the block is
+    entered only for bounds of x0's shape with `xu - xl > 0` everywhere (so `scale` has no zero or negative entry) -/
 theorem gen_scaling_setup : Gen.scalingSetup =
-    ["shift = xl.copy()", "scale = xu - xl", "scaling_changes = (shift, scale, xl.copy(), xu.copy())",
+    ["if scaling_within_bounds and np.shape(xl) == np.shape(x0) and (np.shape(xu) == np.shape(x0)) and np.all(xu - xl > 0.0):",
+     "shift = xl.copy()", "scale = xu - xl", "scaling_changes = (shift, scale, xl.copy(), xu.copy())",
      "x0 = apply_scaling(x0, scaling_changes)", "xl = apply_scaling(xl, scaling_changes)", "xu = apply_scaling(xu, scaling_changes)",
      "apply_scaling: if scaling_changes is None:     return x_raw ; shift, scale = (scaling_changes[0], scaling_changes[1]) ; return (x_raw - shift) / scale"] := by
   decide +kernel
